@@ -239,11 +239,16 @@ def unsafe_scan():
     return hits
 
 
-def run_unit(unit, verify_args, tier, seed, prefixes=None):
+def run_unit(unit, verify_args, tier, seed, prefixes=None, pre=None):
     """-> dict with failures/tool_errors/vacuity/assumptions/timing"""
     res = {"unit": unit, "failures": [], "tool_errors": [], "trusted": [], "rewrites": [], "functions": [],
            "notdecided": [], "bounded": []}
     os.makedirs(BUILD, exist_ok=True)
+    if pre:
+        p = subprocess.run([os.path.join(VERIF, pre)], capture_output=True, text=True)
+        if p.returncode != 0:
+            res["tool_errors"].append(f"pre-step {pre} failed: {p.stdout[-1500:]} {p.stderr[-500:]}")
+            return res
     try:
         rs, meta = extract.build(unit, BUILD, vacuity=False)
         rs_vac, meta_vac = extract.build(unit, BUILD, vacuity=True)
